@@ -44,6 +44,29 @@ def f3_known(chk):
         chk.notes["f3_not_reproduced"] = True
 
 
+def truncated_digests(chk):
+    """Convergence when not even the digest fits: a packet size that holds 3 (or 2) of a node's 5 digest entries;
+    the code sends a random selection each time, which is what lets every node be asked about eventually. After
+    the cluster converged, the busiest node (highest version) and another one publish more; 40 fair sweeps later
+    TLC checks exact equality of every live pair."""
+    nodes = ["a", "b", "c", "d", "e"]
+    behs = []
+    for k in (3, 2):
+        beh = []
+        for n in nodes:
+            beh.append(["UpsertLocal", n, "k1", "v-" + n])
+        for i in range(12):
+            beh.append(["UpsertLocal", "e", "k%d" % (i % 4), "hot%d" % i])
+        beh.append(["Closure", -1, 30])
+        beh += [["UpsertLocal", "e", "k1", "late1"], ["UpsertLocal", "e", "k5", "late2"],
+                ["UpsertLocal", "a", "k2", "late3"], ["DeleteLocal", "e", "k0"], ["Sweeps", k, 40]]
+        behs.append(beh)
+    sched = {"nodes": nodes, "initKnown": True, "behaviours": behs}
+    v, st = run_schedules(chk, sched, "truncated-digests", nodes, invariants=C03_TRACE_INV)
+    if st.get("by_op", {}).get("ClosureEnd", 0) != 2 * len(behs):
+        raise vp.Machinery("vacuous run: the truncated-digest sweeps did not run (%s)" % st.get("by_op"))
+
+
 @prop("C03")
 def c03(chk):
     quick = chk.tier == "quick"
@@ -80,4 +103,5 @@ def c03(chk):
     for need in ("ClosureEnd", "RecvDelta", "CompactLocal"):
         if ops.get(need, 0) == 0:
             raise vp.Machinery("vacuous run: the real code never executed " + need)
+    truncated_digests(chk)
     f3_known(chk)
